@@ -487,7 +487,10 @@ func runProperty(id string, prop Property, tier string, seed int64, replay strin
 		}
 	}
 	results := make([]childResult, len(jobs))
-	sem := make(chan struct{}, 16)
+	// weighted semaphore over the 16 cores (all slots of a job are taken in one step)
+	var semMu sync.Mutex
+	semCond := sync.NewCond(&semMu)
+	avail := 16
 	for ji, j := range jobs {
 		wg.Add(1)
 		go func(ji int, j job) {
@@ -500,13 +503,17 @@ func runProperty(id string, prop Property, tier string, seed int64, replay strin
 			if w > 16 {
 				w = 16
 			}
-			for k := 0; k < w; k++ {
-				sem <- struct{}{}
+			semMu.Lock()
+			for avail < w {
+				semCond.Wait()
 			}
+			avail -= w
+			semMu.Unlock()
 			results[ji] = runChild(st, bins[j.si], scratch, j.batch, seed, tier, replay)
-			for k := 0; k < w; k++ {
-				<-sem
-			}
+			semMu.Lock()
+			avail += w
+			semMu.Unlock()
+			semCond.Broadcast()
 		}(ji, j)
 	}
 	wg.Wait()
